@@ -73,6 +73,11 @@ def C02_rings(c):
     mr, rr = (500, 200) if quick else (6000, 3000)
     conform_ring(c, "ring_atomic", "ring_atomic", scripts_a, "Trace_RingAtomic", ring_consts, origins=(0, big), max_runs=mr, rnd_runs=rr)
     conform_ring(c, "ring_fullsync", "ring_fullsync", scripts_a, "Trace_RingFullSync", fs_consts, origins=(0, big), max_runs=mr, rnd_runs=rr)
+    # small scripts explored exhaustively within the preemption bound (every schedule with at most two preemptions; three in the thorough tier)
+    small = [("x1p2c", [[E(11), E(12)], [D], [D]]), ("x2p1c", [[E(11)], [E(21)], [D, D]]), ("xlen", [[E(11), E(12)], [L, D], [D]])]
+    xb = 2 if quick else 3
+    conform_ring(c, "ring_atomic_x", "ring_atomic", small, "Trace_RingAtomic", ring_consts, origins=(0,), bound=xb, max_runs=400000, rnd_runs=0)
+    conform_ring(c, "ring_fullsync_x", "ring_fullsync", small, "Trace_RingFullSync", fs_consts, origins=(0,), bound=xb, max_runs=400000, rnd_runs=0)
     if not quick:
         conform_ring(c, "ring_atomic_n4", "ring_atomic", [("2p2c4", [[E(11), E(12), E(13)], [E(21), E(22), E(23)], [D, D, D], [D, D]])], "Trace_RingAtomic", ring_consts,
                      n=4, origins=(0, U32 - 5), bound=3, max_runs=8000, rnd_runs=4000)
@@ -112,6 +117,11 @@ def C13(c):
     mr, rr = (400, 150) if quick else (5000, 2500)
     conform_ring(c, "pool_atomic", "pool_atomic", scripts, "Trace_RingAtomic", ring_consts, origins=(0, big), max_runs=mr, rnd_runs=rr, prefill=True, mode="bag")
     conform_ring(c, "pool_fullsync", "pool_fullsync", scripts, "Trace_RingFullSync", fs_consts, origins=(0, big), max_runs=mr, rnd_runs=rr, prefill=True, mode="bag")
+    # small scripts explored exhaustively within the preemption bound
+    small = [("x3", [[AL, FR, AL], [AL, FRR], [AL]]), ("x2", [[AL, AL, FR], [AL, FR, AL]])]
+    xb = 2 if quick else 3
+    conform_ring(c, "pool_atomic_x", "pool_atomic", small, "Trace_RingAtomic", ring_consts, origins=(0,), bound=xb, max_runs=400000, rnd_runs=0, prefill=True, mode="bag")
+    conform_ring(c, "pool_fullsync_x", "pool_fullsync", small, "Trace_RingFullSync", fs_consts, origins=(0,), bound=xb, max_runs=400000, rnd_runs=0, prefill=True, mode="bag")
     if not quick:
         for n in (4, 8):
             conform_ring(c, "pool_atomic_n%d" % n, "pool_atomic", scripts, "Trace_RingAtomic", ring_consts, n=n, origins=(0, U32 - n - 1), bound=3, max_runs=4000, rnd_runs=3000, prefill=True, mode="bag")
@@ -188,6 +198,13 @@ def C18(c):
                  ("3p1c", [[E(11), E(12)], [E(21)], [E(31)], [D, D, D]])]
     conform_l1(c, "queue_nb_atomic", "queue_nb_atomic", q_scripts, 2, "fifo", max_runs=mr, rnd_runs=rr)
     conform_l1(c, "queue_nb_fullsync", "queue_nb_fullsync", q_scripts, 2, "fifo", max_runs=mr, rnd_runs=rr)
+    # small scripts explored exhaustively within the preemption bound (every schedule with at most two preemptions; three in the thorough tier)
+    xq = [("x1p2c", [[E(11), E(12)], [D], [D]]), ("x2p1c", [[E(11)], [E(21)], [D, D]])]
+    xs = [("x2pu1po", [[PU(11), PU(12)], [PO], [PO]]), ("x1pu2po", [[PU(11)], [PU(21)], [PO, PO]])]
+    xb = 2 if quick else 3
+    conform_l1(c, "queue_nb_atomic_x", "queue_nb_atomic", xq, 2, "fifo", bound=xb, max_runs=400000, rnd_runs=0)
+    conform_l1(c, "queue_nb_fullsync_x", "queue_nb_fullsync", xq, 2, "fifo", bound=xb, max_runs=400000, rnd_runs=0)
+    conform_l1(c, "stack_atomic_x", "stack_atomic", xs, 2, "lifo", bound=xb, max_runs=400000, rnd_runs=0, allow_relax=False)
     # real code, real concurrency (all four containers; the only way to exercise the parking-lot mutex)
     rounds, fruns = (60, 6) if quick else (400, 40)
     for kind, mode in (("stack_atomic", "lifo"), ("stack_parking", "lifo"), ("queue_nb_atomic", "fifo"), ("queue_nb_fullsync", "fifo")):
@@ -486,6 +503,13 @@ def C07(c):
             # cancel before the first poll / with events buffered; then the id is reusable
             th2 = [[S(11), S(12), CANCEL_ALL], [DRIVE(0), DROPS(0), CREATE(), op("running"), POLL(s_)]] + ([[DRIVE(1)]] if s_ == 2 else [])
             out += explore2("%s_n%ds%d_reuse" % (kind, n, s_), kind, n, s_, th2, c, mr, rr, seed_extra=7, pre_streams=s_)
+        # streams that were dropped without ever having been told to end, (some of) their ids reused, and only then cancel_all_streams: every
+        # stream alive at that point -- whatever its id -- ends, parked or not
+        for s_, drops, recreate in ((2, [0], 0), (4, [0, 1], 1), (4, [1, 2], 0)):
+            live = [i for i in range(s_) if i not in drops] + [s_ + k for k in range(recreate)]
+            th3 = [[DROPS(i) for i in drops] + [CREATE() for _ in range(recreate)] + [S(11), CANCEL_ALL, op("running")]] + [[DRIVE(i), DROPS(i), op("running")] for i in live[:2]] \
+                  + [[POLL(i), POLL(i), POLL(i)] for i in live[2:]]
+            out += explore2("%s_n4s%d_stale%d" % (kind, s_, len(drops)), kind, 4, s_, th3, c, mr, rr, seed_extra=11, pre_streams=s_)
         return out
     run_uni(c, UNI_KINDS, build, checks)
     C07_multi(c)
@@ -915,6 +939,11 @@ def C07_multi(c):
             cons = [[DRIVE(i), DROPS(i), op("running")] for i in range(nl)]
             th = [[S(11), SW(12)], [CANCEL_ALL]] + cons
             out += explore2("%s_s%dl%d_cancel" % (kind, s_, nl), kind, n, s_, th, c, mr, rr, pre_streams=nl)
+        # listeners dropped without having been told to end, an id reused, then cancel_all_streams: every listener alive then ends
+        for s_, nl, drops, recreate in ((2, 2, [0], 0), (4, 3, [0, 1], 1)):
+            live = [i for i in range(nl) if i not in drops] + [nl + k for k in range(recreate)]
+            th3 = [[DROPS(i) for i in drops] + [CREATE() for _ in range(recreate)] + [S(11), CANCEL_ALL]] + [[DRIVE(i), DROPS(i), op("running")] for i in live]
+            out += explore2("%s_s%dl%d_stale" % (kind, s_, nl), kind, n, s_, th3, c, mr, rr, seed_extra=13, pre_streams=nl)
         return out
     run_multi(c, MULTI_KINDS, build, ["InvCancelEndsStreams", "InvAtMostOncePerListener", "InvNoInvention", "InvRunningCount", "NoPanic"], procs=5)
 
@@ -1311,6 +1340,41 @@ def C06(c):
     c.mc("CloseProto", "close_l1", {"Limit": 1, "NEvents": 2, "WaitExecutors": False}, invariants=["InvCloseWaits"], init="Init", next_="Next", required_actions=["Pull", "Finish", "CloseReturns"], timeout=600, workers=6)
     c.mc("CloseProto", "close_repaired", {"Limit": 3, "NEvents": 2, "WaitExecutors": True}, invariants=["InvCloseWaits"], init="Init", next_="Next", required_actions=["Pull", "Finish", "CloseReturns"], timeout=600, workers=6)
     conform_exec(c, "close", lifecycle_cases(quick, c.seed * 29), EXEC_C06)
+    C06_sched(c)
+
+
+def C06_sched(c):
+    """gracefully_end_all_streams (what Uni::close / Multi::close call) under the deterministic scheduler: the closing thread's polling loops
+       (flush: pending? wake all, sleep; cancel; running? sleep) interleaved step by step with producers and with hand-driven streams at every
+       point of their polls (between consume and the keep-running check, during waker registration, parked); every `sleep` of the loops is a
+       scheduling point after which the closer goes on once somebody else has moved (or nobody else can).  L1: when close returns, every event
+       accepted before it was called has been yielded (Uni: by some stream; Multi: by every listener entitled to it), no stream is left and the
+       channel reports itself closed."""
+    quick = c.tier == "quick"
+    mr, rr = (250, 150) if quick else (4000, 3000)
+    CLOSE = op("close")
+
+    def build_u(kind):
+        out = []
+        for n, s_ in ((4, 1), (4, 2)):
+            th = [[S(11), S(12)], [CLOSE, op("is_open")]] + [[DRIVE(i), DROPS(i)] for i in range(s_)]
+            out += explore2("%s_n%ds%d_close" % (kind, n, s_), kind, n, s_, th, c, mr, rr, pre_streams=s_)
+            # events already buffered when close starts, a stream that has not polled yet
+            th = [[S(11), S(12), S(13), CLOSE, op("running")]] + [[DRIVE(i), DROPS(i)] for i in range(s_)]
+            out += explore2("%s_n%ds%d_close_buffered" % (kind, n, s_), kind, n, s_, th, c, mr, rr, seed_extra=3, pre_streams=s_)
+        return out
+
+    def build_m(kind):
+        out = []
+        for n, s_, nl in ((4, 2, 1), (4, 2, 2)) + (() if quick else ((4, 4, 3),)):
+            p1 = [S(11), S(12)]
+            th = [p1, [CLOSE, op("is_open")]] + [[DRIVE(i), DROPS(i)] for i in range(nl)]
+            out += explore2("%s_s%dl%d_close" % (kind, s_, nl), kind, n, s_, th, c, mr, rr, pre_streams=nl)
+            th = [[S(11), S(12), S(13), CLOSE, op("running")]] + [[DRIVE(i), DROPS(i)] for i in range(nl)]
+            out += explore2("%s_s%dl%d_close_buffered" % (kind, s_, nl), kind, n, s_, th, c, mr, rr, seed_extra=3, pre_streams=nl)
+        return out
+    run_uni(c, UNI_KINDS, build_u, ["InvCloseWaits", "InvClosedAfterwards", "InvDeliveredAtMostOnce", "NoPanic"])
+    run_multi(c, MULTI_KINDS, build_m, ["InvCloseWaits", "InvClosedAfterwards", "InvAtMostOncePerListener", "InvNoInvention", "NoPanic"], procs=5, tag="_close")
 
 
 CHECKS = {"C11": C11, "C12": C12, "C06": C06, "C19": C19, "C14": C14, "C05": C05, "C09": C09, "C03": C03, "C10": C10, "C17": C17, "C04": C04, "C07": C07, "C08": C08, "C16": C16, "C20": C20, "C02": C02, "C13": C13, "C18": C18, "C15": C15, "C01": C01}
